@@ -247,6 +247,14 @@ def m_slice(pep, i, j, keep_labile=True):
     return copy.deepcopy(q)
 
 
+def m_slice_clip(pep, i, j):
+    """as m_slice, but an interval that the range cuts through stays as the part of it inside the range (the library's documented
+    span_to_sequence('(PEPT)IDE', (1, 6, 0)) == '(EPT)ID')"""
+    q = m_slice(pep, i, j)
+    q['intervals'] = sorted([max(s, i) - i, min(e, j) - i, a, copy.deepcopy(ms)] for s, e, a, ms in pep['intervals'] if s < j and e > i)
+    return q
+
+
 def m_reverse(pep, swap_terms=False):
     n = len(pep['seq'])
     q = copy.deepcopy(pep)
